@@ -3,6 +3,9 @@
 From Coq Require Import List NArith ZArith Bool Arith Lia.
 From PyFS Require Import Base.PyStr Base.Outcome Path.PathModel Path.PathSpec FS.Tree FS.Monad FS.Mode FS.Base
      FS.Mem FS.Ops FS.Ref FS.Agree FS.Wf FS.Wrap Sandbox.Sandbox.
+From PyFS Require Import Path.PathProofs Sandbox.SandboxProofs FS.TreeLemmas FS.RefineLemmas FS.RefineProofs
+     FS.Props FS.PropsProofs FS.RefineWalkLemmasEq FS.RefineWalkLemmasMk FS.RefineWalkLemmasBfs
+     FS.RefineWalkLemmasCopy FS.RefineWalkNn FS.RefineWalk FS.WrapLemmas.
 Import ListNotations.
 
 (* observed step of a filesystem rooted at component path d of the storage s, against the
@@ -14,16 +17,1189 @@ Definition sub_agree (d : list str) (obs : node * outcome value) (r : rstep) (s 
      | None => true
      end.
 
-(* STATEMENTS TO PROVE   (nn = the NUL-free-names invariant of FS/RefineWalkLemmasBfs.v / RefineWalkNn.v)
+(* ------------------------------------------------------------------ *)
+(* path arguments as SubFS sees them                                   *)
+(* ------------------------------------------------------------------ *)
+(* SubFS.delegate_path, as a function of the resolved components (subfs_delegate_spec) *)
+Definition dq (d : list str) (p : str) : outcome str :=
+  match resolve (comps p) with
+  | Some cs => Ok (to_path true (d ++ cs))
+  | None => Err IllegalBackReference
+  end.
 
-(* 1. SubFS(MemoryFS, d): every call behaves like the reference on the sub-tree at d and changes
-      nothing outside it - for the calls in [covered] *)
+(* the normal form of a path argument: what is left of it after SubFS.delegate_path *)
+Definition npath (p : str) : str :=
+  match resolve (comps p) with Some cs => to_path true cs | None => p end.
+
+Definition nop (o : op) : op :=
+  match o with
+  | OGetinfo p => OGetinfo (npath p) | OListdir p => OListdir (npath p)
+  | OScandir p => OScandir (npath p)
+  | OMakedir p r => OMakedir (npath p) r | OMakedirs p r => OMakedirs (npath p) r
+  | OWritebytes p x => OWritebytes (npath p) x | OAppendbytes p x => OAppendbytes (npath p) x
+  | OReadbytes p => OReadbytes (npath p)
+  | OCreate p w => OCreate (npath p) w | OTouch p => OTouch (npath p)
+  | OOpenwrite p m x => OOpenwrite (npath p) m x | OOpenread p m => OOpenread (npath p) m
+  | ORemove p => ORemove (npath p) | ORemovedir p => ORemovedir (npath p)
+  | ORemovetree p => ORemovetree (npath p)
+  | OMove a b o t => OMove (npath a) (npath b) o t | OCopy a b o t => OCopy (npath a) (npath b) o t
+  | OMovedir a b o t => OMovedir (npath a) (npath b) o t
+  | OCopydir a b o t => OCopydir (npath a) (npath b) o t
+  | OSetinfo p m => OSetinfo (npath p) m
+  | OExists p => OExists (npath p) | OIsdir p => OIsdir (npath p) | OIsfile p => OIsfile (npath p)
+  | OIsempty p => OIsempty (npath p) | OGetsize p => OGetsize (npath p)
+  | OGettype p => OGettype (npath p)
+  end.
+
+Definition resolves (p : str) : bool :=
+  match resolve (comps p) with Some _ => true | None => false end.
+
+(* the cases where the order of the checks of WrapFS is visible (see the counterexamples
+   at the end of the file): an invalid mode string with a path that climbs above the root;
+   copy(overwrite=False) from a source whose normal form contains NUL *)
+Definition g_pre (o : op) : bool :=
+  match o with
+  | OOpenwrite p m _ | OOpenread p m => mode_valid_bin m || resolves p
+  | OCopy a _ false _ =>
+    match resolve (comps a) with
+    | Some cs => negb (has_char Mem.nul (to_path true cs))
+    | None => true
+    end
+  | _ => true
+  end.
+
+Definition sub_ok (d : list str) (obs : node * outcome value) (r : rstep) (s : node) : Prop :=
+  sub_agree d obs r s = true /\ wf (fst obs) /\ nn (fst obs).
+
+Lemma covered_nop o : covered (nop o) = covered o.
+Proof. destruct o; reflexivity. Qed.
+
+Lemma with2_bad_l t p q k e e1 : rpath p = inr e1 -> existsb (ecls_eqb e) e1 = true ->
+  exists adm, with2 t p q k = fail t adm /\ existsb (ecls_eqb e) adm = true.
+Proof.
+  intros R H. unfold with2. rewrite R. destruct (rpath q); eexists; split; try reflexivity.
+  - exact H.
+  - rewrite existsb_app, H. reflexivity.
+Qed.
+
+Lemma with2_bad_r t p q k e e2 : rpath q = inr e2 -> existsb (ecls_eqb e) e2 = true ->
+  exists adm, with2 t p q k = fail t adm /\ existsb (ecls_eqb e) adm = true.
+Proof.
+  intros R H. unfold with2. rewrite R. destruct (rpath p); eexists; split; try reflexivity.
+  - exact H.
+  - rewrite existsb_app, H. apply orb_true_r.
+Qed.
+
+Lemma ibr_in p : resolve (comps p) = None ->
+  npath p = p /\ exists adm, rpath p = inr adm /\ existsb (ecls_eqb IllegalBackReference) adm = true.
+Proof.
+  intro E. unfold npath, rpath. rewrite E. split; [reflexivity|].
+  eexists. split; [reflexivity|]. destruct (has_char Ref.nul p); reflexivity.
+Qed.
+
+Lemma rpath_npath_some p cs : resolve (comps p) = Some cs ->
+  rpath (npath p) = if has_char Mem.nul (to_path true cs) then inr [InvalidCharsInPath] else inl cs.
+Proof.
+  intro E. pose proof (resolve_comps_good _ _ E) as G.
+  unfold npath. rewrite E. unfold rpath. change Ref.nul with Mem.nul.
+  rewrite resolve_comps_nf by exact G. destruct (has_char Mem.nul (to_path true cs)); reflexivity.
+Qed.
+
+Lemma is_root_some p cs s : resolve (comps p) = Some cs ->
+  is_root p s = (s, Ok (match cs with [] => true | _ => false end)).
+Proof.
+  intro E. pose proof (resolve_comps_good _ _ E) as G.
+  unfold is_root. mstep. rewrite normpath_spec. unfold spec_normpath. rewrite E.
+  rewrite abspath_nf_gen by exact G. rewrite <- to_path_root.
+  rewrite (RefineLemmas.to_path_eqb cs []) by (auto; constructor).
+  destruct cs; reflexivity.
+Qed.
+
+Lemma is_root_none p s : resolve (comps p) = None -> is_root p s = (s, Err IllegalBackReference).
+Proof.
+  intro E. unfold is_root. mstep. rewrite normpath_spec. unfold spec_normpath. now rewrite E.
+Qed.
+
+Lemma set_name_root x n : set_name (to_info x n) [] = info_of [] n.
+Proof. reflexivity. Qed.
+
+(* ------------------------------------------------------------------ *)
+(* WrapFS.copy after delegation                                        *)
+(* ------------------------------------------------------------------ *)
+Definition wc_body (qs qd : str) (o pt : bool) : MM unit :=
+  mbind (if o then ret false else mem_exists qd) (fun e =>
+    if e then raise DestinationExists else copy_file_internal mem_low mem_copy qs qd pt).
+
+Lemma w_copy_unfold dg a b o pt s :
+  vmap (fun _ : unit => VUnit) (w_copy dg a b o pt) s =
+  match dg a with
+  | Ok qs => match dg b with
+             | Ok qd => vmap (fun _ : unit => VUnit) (wc_body qs qd o pt) s
+             | Err e => (s, Err e)
+             | Crash k => (s, Crash k)
+             end
+  | Err e => (s, Err e)
+  | Crash k => (s, Crash k)
+  end.
+Proof.
+  unfold w_copy, wc_body, dpath. mstep. destruct (dg a); [|reflexivity|reflexivity].
+  destruct (dg b); reflexivity.
+Qed.
+
+Lemma cfi_inl qs qd a b pt s : rpath qs = inl a -> rpath qd = inl b ->
+  copy_file_internal mem_low mem_copy qs qd pt s = copy_tail (to_path true a) (to_path true b) pt s.
+Proof.
+  intros R1 R2. unfold copy_file_internal. cbn [l_validatepath mem_low]. mstep.
+  rewrite (validate_inl _ _ s R1). mstep. rewrite (validate_inl _ _ s R2). mstep.
+  destruct (str_eqb (to_path true a) (to_path true b)) eqn:E.
+  - unfold copy_tail. rewrite E. reflexivity.
+  - unfold mem_copy. rewrite b_copy_unfold. mstep.
+    rewrite (validate_inl _ _ s R1). mstep. rewrite (validate_inl _ _ s R2). reflexivity.
+Qed.
+
+Lemma wc_body_inl qs qd a b o pt s : rpath qs = inl a -> rpath qd = inl b ->
+  wc_body qs qd o pt s = mem_copy qs qd o pt s.
+Proof.
+  intros R1 R2. unfold wc_body, mem_copy. rewrite b_copy_unfold. mstep.
+  rewrite (validate_inl _ _ s R1). mstep. rewrite (validate_inl _ _ s R2). mstep.
+  destruct o.
+  - mstep. exact (cfi_inl _ _ _ _ pt s R1 R2).
+  - unfold mem_exists. rewrite (mem_exists_spec _ _ s R2).
+    rewrite (mem_exists_spec _ _ s (rpath_nf _ (rpath_vp _ _ R2))).
+    destruct (lookup s b); [reflexivity|]. exact (cfi_inl _ _ _ _ pt s R1 R2).
+Qed.
+
+Lemma wc_body_bad_l qs qd adm pt s : rpath qs = inr adm ->
+  wc_body qs qd true pt s = (s, Err (bad_err qs)).
+Proof.
+  intro R. unfold wc_body, copy_file_internal. cbn [l_validatepath mem_low]. mstep.
+  now rewrite (validate_inr _ _ s R).
+Qed.
+
+Lemma wc_body_bad_r qs qd a adm o pt s : rpath qs = inl a -> rpath qd = inr adm ->
+  wc_body qs qd o pt s = (s, Err (bad_err qd)).
+Proof.
+  intros R1 R2. unfold wc_body. destruct o.
+  - unfold copy_file_internal. cbn [l_validatepath mem_low]. mstep.
+    rewrite (validate_inl _ _ s R1). mstep. now rewrite (validate_inr _ _ s R2).
+  - unfold mem_exists. mstep. now rewrite (mem_exists_bad _ _ s R2).
+Qed.
+
+(* ------------------------------------------------------------------ *)
+(* removetree of the root: every entry is removed, the directory stays *)
+(* ------------------------------------------------------------------ *)
+Definition rt_body (q : str) (i : info) : MM unit :=
+  mbind (lift (pjoin [q; i_name i])) (fun ip =>
+    if i_isdir i then mem_removetree ip else mem_remove ip).
+
+Section RtLoop.
+  Variable d : list str.
+  Variable q : str.      (* a spelling of the directory d *)
+  Hypothesis HQ : forall k, good k -> nonulc k ->
+    exists ip, pjoin [q; k] = Ok ip /\ rpath ip = inl (d ++ [k]).
+
+  Lemma rt_body_step s k n r m : wf s -> nn s -> lookup s d = Some (Dir ((k, n) :: r) m) ->
+    rt_body q (to_info k n) s = (put s d (Dir r m), Ok tt)
+    /\ wf (put s d (Dir r m)) /\ nn (put s d (Dir r m)).
+  Proof.
+    intros W N Hl.
+    assert (Ha : assoc k ((k, n) :: r) = Some n) by (simpl; now rewrite str_eqb_refl).
+    assert (Gk : good k).
+    { destruct W as [_ Wn]. eapply wf_assoc_good; [eapply wf_lookup; eauto|exact Ha]. }
+    assert (Nk : nonulc k).
+    { destruct (nn_lookup d s _ N Hl) as [Nn _]. eapply nn_assoc_key; eauto. }
+    destruct (HQ k Gk Nk) as (ip & Ej & R).
+    assert (Ed : del s (d ++ [k]) = put s d (Dir r m)).
+    { rewrite (del_pre d s _ [k] Hl) by discriminate. cbn [del assoc_del]. now rewrite str_eqb_refl. }
+    split.
+    - unfold rt_body. cbn [i_name i_isdir to_info]. mstep. rewrite Ej.
+      destruct n as [dt mt|e2 m2]; cbn [is_dir].
+      + rewrite (mem_remove_snoc _ d k s R), Hl, Ha. now rewrite Ed.
+      + rewrite (mem_removetree_snoc _ d k s R), Hl, Ha. now rewrite Ed.
+    - rewrite <- Ed. split; [now apply wf_del_any|now apply nn_del].
+  Qed.
+
+  Lemma rt_loop ents : forall s m, wf s -> nn s -> lookup s d = Some (Dir ents m) ->
+    mfor (map (fun kn => to_info (fst kn) (snd kn)) ents) (rt_body q) s
+    = (put s d (Dir [] m), Ok tt)
+    /\ wf (put s d (Dir [] m)) /\ nn (put s d (Dir [] m)).
+  Proof.
+    induction ents as [|[k n] r IH]; intros s m W N Hl.
+    - rewrite (put_id _ _ _ Hl). auto.
+    - cbn [map mfor fst snd]. unfold mbind.
+      destruct (rt_body_step s k n r m W N Hl) as (E & W1 & N1). rewrite E.
+      assert (Hl1 : lookup (put s d (Dir r m)) d = Some (Dir r m)) by (eapply lookup_put_at; eauto).
+      destruct (IH _ m W1 N1 Hl1) as (E2 & W2 & N2). rewrite put_put in E2, W2, N2. auto.
+  Qed.
+End RtLoop.
+
+(* ------------------------------------------------------------------ *)
+(* a wrapper whose delegate_path prepends the directory d              *)
+(* ------------------------------------------------------------------ *)
+Section Gen.
+  Variable dg : str -> outcome str.
+  Variable d : list str.
+  Hypothesis DS : forall p, dg p = dq d p.
+  Hypothesis Gd : Forall good d.
+  Hypothesis Nd : nonul d.
+
+  Lemma vp_d : vp d.
+  Proof. split; assumption. Qed.
+
+  Lemma rpath_deleg p cs : resolve (comps p) = Some cs ->
+    rpath (to_path true (d ++ cs))
+    = if has_char Mem.nul (to_path true cs) then inr [InvalidCharsInPath] else inl (d ++ cs).
+  Proof.
+    intro E. pose proof (resolve_comps_good _ _ E) as G.
+    unfold rpath. change Ref.nul with Mem.nul. rewrite has_nul_pre by exact Nd.
+    rewrite resolve_comps_nf by (apply Forall_good_app; assumption).
+    destruct (has_char Mem.nul (to_path true cs)); reflexivity.
+  Qed.
+
+  Lemma plift_deleg p cs : resolve (comps p) = Some cs ->
+    plift d (npath p) (to_path true (d ++ cs)).
+  Proof.
+    intro E. unfold plift. rewrite (rpath_npath_some _ _ E), (rpath_deleg _ _ E).
+    destruct (has_char Mem.nul (to_path true cs)); reflexivity.
+  Qed.
+
+  Lemma dg_some p cs : resolve (comps p) = Some cs -> dg p = Ok (to_path true (d ++ cs)).
+  Proof. intro E. rewrite DS. unfold dq. now rewrite E. Qed.
+
+  Lemma dg_none p : resolve (comps p) = None -> dg p = Err IllegalBackReference.
+  Proof. intro E. rewrite DS. unfold dq. now rewrite E. Qed.
+
+  Lemma map1_some p cs k s : resolve (comps p) = Some cs ->
+    map1 dg p k s = mem_run (k (to_path true (d ++ cs))) s.
+  Proof. intro E. unfold map1, dpath. mstep. now rewrite (dg_some _ _ E). Qed.
+
+  Lemma map1_none p k s : resolve (comps p) = None ->
+    map1 dg p k s = (s, Err IllegalBackReference).
+  Proof. intro E. unfold map1, dpath. mstep. now rewrite (dg_none _ E). Qed.
+
+  Lemma map2_some a b ca cb k s : resolve (comps a) = Some ca -> resolve (comps b) = Some cb ->
+    map2 dg a b k s = mem_run (k (to_path true (d ++ ca)) (to_path true (d ++ cb))) s.
+  Proof. intros E1 E2. unfold map2, dpath. mstep. now rewrite (dg_some _ _ E1), (dg_some _ _ E2). Qed.
+
+  Lemma map2_none_l a b k s : resolve (comps a) = None ->
+    map2 dg a b k s = (s, Err IllegalBackReference).
+  Proof. intro E. unfold map2, dpath. mstep. now rewrite (dg_none _ E). Qed.
+
+  Lemma map2_none_r a b ca k s : resolve (comps a) = Some ca -> resolve (comps b) = None ->
+    map2 dg a b k s = (s, Err IllegalBackReference).
+  Proof. intros E1 E2. unfold map2, dpath. mstep. now rewrite (dg_some _ _ E1), (dg_none _ E2). Qed.
+
+  Section State.
+    Variables s sub : node.
+    Hypothesis W : wf s.
+    Hypothesis N : nn s.
+    Hypothesis Hl : lookup s d = Some sub.
+    Hypothesis Hsub : is_dir sub = true.
+
+    Lemma gen_ok o o' : covered o = true -> op_lift d o o' -> not_root_special o ->
+      sub_ok d (mem_run o' s) (ref_run o sub) s.
+    Proof.
+      intros C H NR. assert (C' : covered o' = true) by now rewrite (op_lift_covered _ _ _ H).
+      split; [|split].
+      - pose proof (mem_refines_ref o' s W C') as A.
+        rewrite (ref_frame s sub d o o' Hl Hsub H NR C), agree_lift in A. exact A.
+      - now apply mem_wf_preserved.
+      - now apply nn_preserved_covered.
+    Qed.
+
+    Lemma bad_ok e adm : existsb (ecls_eqb e) adm = true ->
+      sub_ok d (s, Err e) (fail sub adm) s.
+    Proof.
+      intro H. split; [|split; assumption].
+      unfold sub_agree, fail, same. cbn. rewrite H, (put_id _ _ _ Hl). apply tree_eqb_refl.
+    Qed.
+
+    Lemma same_ok v w : value_eqb v w = true -> sub_ok d (s, Ok v) (same sub (ROk w)) s.
+    Proof.
+      intro H. split; [|split; assumption].
+      unfold sub_agree, same. cbn. rewrite H, (put_id _ _ _ Hl). apply tree_eqb_refl.
+    Qed.
+
+    (* ---- calls delegated as they are ---- *)
+    Ltac t_map1 p :=
+      let E := fresh "E" in
+      destruct (resolve (comps p)) as [cs|] eqn:E;
+      [ rewrite (map1_some _ _ _ _ E); apply gen_ok;
+        [reflexivity | cbn [nop op_lift]; repeat split; now apply plift_deleg | exact I]
+      | let adm := fresh "adm" in let R := fresh "R" in let Hin := fresh "Hin" in
+        let En := fresh "En" in
+        rewrite (map1_none _ _ _ E); destruct (ibr_in p E) as (En & adm & R & Hin);
+        cbn [nop ref_run]; unfold ref_query, with1; rewrite En, R; now apply bad_ok ].
+
+    Lemma gen_map1 o : covered o = true -> g_pre o = true ->
+      match o with
+      | OGetinfo _ | ORemovedir _ | ORemovetree _ | OCopy _ _ _ _ | OMove _ _ _ _ => True
+      | _ => sub_ok d (wrap_run dg o s) (ref_run (nop o) sub) s
+      end.
+    Proof.
+      intros C P. destruct o; try exact I; try discriminate C; cbn [wrap_run].
+      - t_map1 p.
+      - t_map1 p.
+      - t_map1 p.
+      - t_map1 p.
+      - t_map1 p.
+      - t_map1 p.
+      - t_map1 p.
+      - t_map1 p.
+      - (* openwrite *)
+        destruct (resolve (comps p)) as [cs|] eqn:E.
+        + rewrite (map1_some _ _ _ _ E). apply gen_ok;
+            [reflexivity | cbn [nop op_lift]; repeat split; now apply plift_deleg | exact I].
+        + cbn [g_pre] in P. unfold resolves in P. rewrite E, orb_false_r in P.
+          rewrite (map1_none _ _ _ E). destruct (ibr_in p E) as (En & adm & R & Hin).
+          cbn [nop ref_run]. rewrite P. cbn [negb]. unfold with1. rewrite En, R. now apply bad_ok.
+      - destruct (resolve (comps p)) as [cs|] eqn:E.
+        + rewrite (map1_some _ _ _ _ E). apply gen_ok;
+            [reflexivity | cbn [nop op_lift]; repeat split; now apply plift_deleg | exact I].
+        + cbn [g_pre] in P. unfold resolves in P. rewrite E, orb_false_r in P.
+          rewrite (map1_none _ _ _ E). destruct (ibr_in p E) as (En & adm & R & Hin).
+          cbn [nop ref_run]. rewrite P. cbn [negb]. unfold with1. rewrite En, R. now apply bad_ok.
+      - t_map1 p.
+      - t_map1 p.
+      - t_map1 p.
+      - t_map1 p.
+      - t_map1 p.
+      - t_map1 p.
+      - t_map1 p.
+      - t_map1 p.
+    Qed.
+
+    (* ---- move: two delegated paths ---- *)
+    Lemma gen_move a b o pt :
+      sub_ok d (wrap_run dg (OMove a b o pt) s) (ref_run (nop (OMove a b o pt)) sub) s.
+    Proof.
+      cbn [wrap_run nop ref_run].
+      destruct (resolve (comps a)) as [ca|] eqn:E1.
+      - destruct (resolve (comps b)) as [cb|] eqn:E2.
+        + rewrite (map2_some _ _ _ _ _ _ E1 E2).
+          apply (gen_ok (OMove (npath a) (npath b) o pt));
+            [reflexivity | cbn [op_lift]; repeat split; now apply plift_deleg | exact I].
+        + rewrite (map2_none_r _ _ _ _ _ E1 E2). destruct (ibr_in b E2) as (En & adm & R & Hin).
+          rewrite En.
+          destruct (with2_bad_r sub (npath a) b (fun x y => ref_move sub x y o pt) _ _ R Hin)
+            as (adm' & -> & Hin').
+          now apply bad_ok.
+      - rewrite (map2_none_l _ _ _ _ E1). destruct (ibr_in a E1) as (En & adm & R & Hin).
+        rewrite En.
+        destruct (with2_bad_l sub a (npath b) (fun x y => ref_move sub x y o pt) _ _ R Hin)
+          as (adm' & -> & Hin').
+        now apply bad_ok.
+    Qed.
+
+    (* ---- getinfo: the name of the root is "" ---- *)
+    Lemma gen_getinfo p :
+      sub_ok d (wrap_run dg (OGetinfo p) s) (ref_run (nop (OGetinfo p)) sub) s.
+    Proof.
+      cbn [wrap_run nop ref_run]. unfold w_getinfo, dpath.
+      destruct (resolve (comps p)) as [cs|] eqn:E.
+      2:{ mstep. rewrite (dg_none _ E). destruct (ibr_in p E) as (En & adm & R & Hin).
+          unfold with1. rewrite En, R. now apply bad_ok. }
+      destruct cs as [|c cs'].
+      - (* the root of the SubFS *)
+        mstep. rewrite (dg_some _ _ E), app_nil_r.
+        rewrite (mem_getinfo_spec _ _ s (rpath_nf _ vp_d)), Hl.
+        rewrite (is_root_some _ _ s E). rewrite set_name_root.
+        unfold with1. rewrite (rpath_npath_some _ _ E). cbn [has_char existsb to_path app join].
+        cbn. unfold ref_getinfo. cbn [lookup]. apply same_ok. apply value_eqb_refl.
+      - assert (X : vmap VInfo
+                      (mbind (lift (dg p)) (fun q => mbind (mem_getinfo q) (fun i =>
+                       mbind (is_root p) (fun r => ret (if r then set_name i [] else i))))) s
+                    = mem_run (OGetinfo (to_path true (d ++ c :: cs'))) s).
+        { cbn [mem_run]. mstep. rewrite (dg_some _ _ E).
+          destruct (mem_getinfo (to_path true (d ++ c :: cs')) s) as [s1 [i|e|k]]; try reflexivity.
+          now rewrite (is_root_some _ _ s1 E). }
+        rewrite X. apply (gen_ok (OGetinfo (npath p))); [reflexivity|now apply plift_deleg|].
+        cbn [not_root_special]. rewrite (rpath_npath_some _ _ E).
+        destruct (has_char Mem.nul (to_path true (c :: cs'))); discriminate.
+    Qed.
+
+    (* ---- removedir: the root cannot be removed ---- *)
+    Lemma gen_removedir p :
+      sub_ok d (wrap_run dg (ORemovedir p) s) (ref_run (nop (ORemovedir p)) sub) s.
+    Proof.
+      cbn [wrap_run nop ref_run]. unfold w_removedir.
+      destruct (resolve (comps p)) as [cs|] eqn:E.
+      2:{ mstep. rewrite (is_root_none _ s E). destruct (ibr_in p E) as (En & adm & R & Hin).
+          unfold with1. rewrite En, R. now apply bad_ok. }
+      destruct cs as [|c cs'].
+      - mstep. rewrite (is_root_some _ _ s E).
+        unfold with1. rewrite (rpath_npath_some _ _ E). cbn. unfold ref_removedir.
+        now apply bad_ok.
+      - assert (X : vmap (fun _ : unit => VUnit)
+                      (mbind (is_root p) (fun r => if r then raise RemoveRootError
+                         else mbind (dpath dg p) (fun q => mem_removedir q))) s
+                    = mem_run (ORemovedir (to_path true (d ++ c :: cs'))) s).
+        { cbn [mem_run]. unfold dpath. mstep. rewrite (is_root_some _ _ s E).
+          now rewrite (dg_some _ _ E). }
+        rewrite X. apply (gen_ok (ORemovedir (npath p))); [reflexivity|now apply plift_deleg|].
+        cbn [not_root_special]. rewrite (rpath_npath_some _ _ E).
+        destruct (has_char Mem.nul (to_path true (c :: cs'))); discriminate.
+    Qed.
+  End State.
+
+  Lemma HQ_deleg k : good k -> nonulc k ->
+    exists ip, pjoin [to_path true d; k] = Ok ip /\ rpath ip = inl (d ++ [k]).
+  Proof.
+    intros Gk Nk. exists (to_path true (d ++ [k])). split; [now apply pjoin_two_nf|].
+    apply rpath_nf. apply vp_app. split; [exact vp_d|].
+    split; (constructor; [assumption|constructor]).
+  Qed.
+
+  Section State2.
+    Variables s sub : node.
+    Hypothesis W : wf s.
+    Hypothesis N : nn s.
+    Hypothesis Hl : lookup s d = Some sub.
+    Hypothesis Hsub : is_dir sub = true.
+
+    Lemma gen_removetree p :
+      sub_ok d (wrap_run dg (ORemovetree p) s) (ref_run (nop (ORemovetree p)) sub) s.
+    Proof.
+      cbn [wrap_run nop ref_run]. unfold w_removetree, dpath.
+      destruct (resolve (comps p)) as [cs|] eqn:E.
+      2:{ mstep. rewrite normpath_spec. unfold spec_normpath. rewrite E.
+          destruct (ibr_in p E) as (En & adm & R & Hin).
+          unfold with1. rewrite En, R. now apply (bad_ok s sub W N Hl). }
+      pose proof (resolve_comps_good _ _ E) as G.
+      destruct cs as [|c cs'].
+      - destruct sub as [|ents m] eqn:Es; [discriminate|].
+        destruct (rt_loop d (to_path true d) HQ_deleg ents s m W N Hl) as (EL & W1 & N1).
+        assert (X : vmap (fun _ : unit => VUnit)
+                      (mbind (lift (normpath p)) (fun n => mbind (lift (dg p)) (fun q =>
+                         if str_eqb (abspath n) s_slash
+                         then mbind (mem_scandir q) (fun infos => mfor infos (rt_body q))
+                         else mem_removetree q))) s
+                    = (put s d (Dir [] m), Ok VUnit)).
+        { mstep. rewrite normpath_spec. unfold spec_normpath. rewrite E.
+          rewrite (dg_some _ _ E), app_nil_r.
+          rewrite abspath_nf_gen by constructor.
+          change (str_eqb (to_path true []) s_slash) with true. cbv beta iota.
+          rewrite (mem_scandir_spec _ _ s (rpath_nf _ vp_d)), Hl. now rewrite EL. }
+        unfold rt_body in X. rewrite X.
+        unfold with1. rewrite (rpath_npath_some _ _ E). cbn. unfold ref_removetree.
+        split; [|split; assumption].
+        unfold sub_agree. cbn. apply tree_eqb_refl.
+      - assert (X : vmap (fun _ : unit => VUnit)
+                      (mbind (lift (normpath p)) (fun n => mbind (lift (dg p)) (fun q =>
+                         if str_eqb (abspath n) s_slash
+                         then mbind (mem_scandir q) (fun infos => mfor infos (rt_body q))
+                         else mem_removetree q))) s
+                    = mem_run (ORemovetree (to_path true (d ++ c :: cs'))) s).
+        { cbn [mem_run]. mstep. rewrite normpath_spec. unfold spec_normpath. rewrite E.
+          rewrite (dg_some _ _ E). rewrite abspath_nf_gen by exact G.
+          rewrite <- to_path_root.
+          rewrite (RefineLemmas.to_path_eqb (c :: cs') []) by (auto; constructor).
+          reflexivity. }
+        unfold rt_body in X. rewrite X.
+        apply (gen_ok s sub W N Hl Hsub (ORemovetree (npath p)));
+          [reflexivity|now apply plift_deleg|].
+        cbn [not_root_special]. rewrite (rpath_npath_some _ _ E).
+        destruct (has_char Mem.nul (to_path true (c :: cs'))); discriminate.
+    Qed.
+
+    (* ---- copy: WrapFS checks the destination, then fs.copy.copy_file ---- *)
+    Lemma gen_copy a b o pt : g_pre (OCopy a b o pt) = true ->
+      sub_ok d (wrap_run dg (OCopy a b o pt) s) (ref_run (nop (OCopy a b o pt)) sub) s.
+    Proof.
+      intro P. cbn [wrap_run nop ref_run]. rewrite w_copy_unfold.
+      destruct (resolve (comps a)) as [ca|] eqn:E1.
+      2:{ rewrite (dg_none _ E1). destruct (ibr_in a E1) as (En & adm & R & Hin). rewrite En.
+          destruct (with2_bad_l sub a (npath b) (fun x y => ref_copy sub x y o pt) _ _ R Hin)
+            as (adm' & -> & Hin').
+          now apply (bad_ok s sub W N Hl). }
+      rewrite (dg_some _ _ E1).
+      destruct (resolve (comps b)) as [cb|] eqn:E2.
+      2:{ rewrite (dg_none _ E2). destruct (ibr_in b E2) as (En & adm & R & Hin). rewrite En.
+          destruct (with2_bad_r sub (npath a) b (fun x y => ref_copy sub x y o pt) _ _ R Hin)
+            as (adm' & -> & Hin').
+          now apply (bad_ok s sub W N Hl). }
+      rewrite (dg_some _ _ E2).
+      pose proof (rpath_deleg _ _ E1) as Q1. pose proof (rpath_deleg _ _ E2) as Q2.
+      pose proof (rpath_npath_some _ _ E1) as P1. pose proof (rpath_npath_some _ _ E2) as P2.
+      destruct (has_char Mem.nul (to_path true ca)) eqn:N1.
+      - (* NUL in the source *)
+        cbn [g_pre] in P. rewrite E1, N1 in P. destruct o; [|discriminate P].
+        unfold vmap, mbind. rewrite (wc_body_bad_l _ _ _ pt s Q1).
+        destruct (with2_bad_l sub (npath a) (npath b) (fun x y => ref_copy sub x y true pt) _ _ P1
+                              (bad_err_in _ _ Q1)) as (adm' & -> & Hin').
+        now apply (bad_ok s sub W N Hl).
+      - destruct (has_char Mem.nul (to_path true cb)) eqn:N2.
+        + unfold vmap, mbind. rewrite (wc_body_bad_r _ _ _ _ o pt s Q1 Q2).
+          destruct (with2_bad_r sub (npath a) (npath b) (fun x y => ref_copy sub x y o pt) _ _ P2
+                                (bad_err_in _ _ Q2)) as (adm' & -> & Hin').
+          now apply (bad_ok s sub W N Hl).
+        + assert (X : vmap (fun _ : unit => VUnit)
+                        (wc_body (to_path true (d ++ ca)) (to_path true (d ++ cb)) o pt) s
+                      = mem_run (OCopy (to_path true (d ++ ca)) (to_path true (d ++ cb)) o pt) s).
+          { cbn [mem_run]. unfold vmap, mbind. now rewrite (wc_body_inl _ _ _ _ o pt s Q1 Q2). }
+          rewrite X.
+          apply (gen_ok s sub W N Hl Hsub (OCopy (npath a) (npath b) o pt));
+            [reflexivity | cbn [op_lift]; repeat split; now apply plift_deleg | exact I].
+    Qed.
+
+    (* every covered call *)
+    Theorem wrap_gen o : covered o = true -> g_pre o = true ->
+      sub_ok d (wrap_run dg o s) (ref_run (nop o) sub) s.
+    Proof.
+      intros C P. pose proof (gen_map1 s sub W N Hl Hsub o C P) as H.
+      destruct o; try exact H; try discriminate C.
+      - apply gen_getinfo; assumption.
+      - apply gen_removedir; assumption.
+      - apply gen_removetree.
+      - apply gen_move; assumption.
+      - now apply gen_copy.
+    Qed.
+  End State2.
+End Gen.
+
+(* ------------------------------------------------------------------ *)
+(* path arguments whose NUL characters disappear in normalisation      *)
+(* ------------------------------------------------------------------ *)
+(* "x\0/.." : SubFS normalises the path before MemoryFS.validatepath can see the NUL *)
+Definition nul_hidden (p : str) : bool :=
+  has_char Mem.nul p &&
+  match resolve (comps p) with
+  | Some cs => negb (has_char Mem.nul (to_path true cs))
+  | None => false
+  end.
+
+Definition paths_of (o : op) : list str :=
+  match o with
+  | OGetinfo p | OListdir p | OScandir p | OMakedir p _ | OMakedirs p _ | OWritebytes p _
+  | OAppendbytes p _ | OReadbytes p | OCreate p _ | OTouch p | OOpenwrite p _ _ | OOpenread p _
+  | ORemove p | ORemovedir p | ORemovetree p | OSetinfo p _ | OExists p | OIsdir p | OIsfile p
+  | OIsempty p | OGetsize p | OGettype p => [p]
+  | OMove a b _ _ | OCopy a b _ _ | OMovedir a b _ _ | OCopydir a b _ _ => [a; b]
+  end.
+
+(* the calls on which SubFS(MemoryFS) is compared with the reference *)
+Definition sub_pre (o : op) : bool :=
+  forallb (fun p => negb (nul_hidden p)) (paths_of o) && g_pre o.
+
+Lemma npath_same p : nul_hidden p = false -> rpath (npath p) = rpath p.
+Proof.
+  unfold nul_hidden. intro H.
+  destruct (resolve (comps p)) as [cs|] eqn:E.
+  - rewrite (rpath_npath_some _ _ E).
+    destruct (rpath p) as [cs'|adm] eqn:R.
+    + pose proof (rpath_vp _ _ R) as [_ Nn]. apply rpath_inl in R as [_ R]. rewrite E in R.
+      inversion R; subst cs'. pose proof (to_path_nonul true cs Nn) as K. now rewrite K.
+    + unfold rpath in R. change Ref.nul with Mem.nul in R. rewrite E in R.
+      destruct (has_char Mem.nul p); [|discriminate R].
+      cbn [andb] in H. apply negb_false_iff in H. rewrite H. exact R.
+  - unfold npath. now rewrite E.
+Qed.
+
+Lemma nop_same o : forallb (fun p => negb (nul_hidden p)) (paths_of o) = true -> same_call (nop o) o.
+Proof.
+  destruct o; cbn [paths_of forallb nop same_call]; rewrite ?andb_true_r, ?andb_true_iff, ?negb_true_iff;
+    intros; split_and; repeat split; auto using npath_same.
+Qed.
+
+(* outside g_pre the call fails and leaves the storage as it is *)
+Lemma wc_body_fails qs qd adm pt s : rpath qs = inr adm ->
+  exists e, wc_body qs qd false pt s = (s, Err e).
+Proof.
+  intro R. unfold wc_body, mem_exists, copy_file_internal. cbn [l_validatepath mem_low]. mstep.
+  destruct (rpath qd) as [b|e] eqn:R2.
+  - rewrite (mem_exists_spec _ _ s R2). destruct (lookup s b); [eauto|].
+    rewrite (validate_inr _ _ s R). eauto.
+  - rewrite (mem_exists_bad _ _ s R2). eauto.
+Qed.
+
+Section GenTheorems.
+  Variable dg : str -> outcome str.
+  Variable d : list str.
+  Hypothesis DS : forall p, dg p = dq d p.
+  Hypothesis Gd : Forall good d.
+  Hypothesis Nd : Forall (fun c => has_char Mem.nul c = false) d.
+
+  Theorem gen_refines_ref : forall sub o s,
+    wf s -> nn s -> lookup s d = Some sub -> is_dir sub = true -> covered o = true ->
+    sub_pre o = true ->
+    sub_agree d (wrap_run dg o s) (ref_run o sub) s = true.
+  Proof.
+    intros sub o s W N Hl Hs C P. unfold sub_pre in P. apply andb_true_iff in P as [P1 P2].
+    rewrite <- (ref_spelling (nop o) o sub (nop_same o P1)).
+    exact (proj1 (wrap_gen dg d DS Gd Nd s sub W N Hl Hs o C P2)).
+  Qed.
+
+  Lemma excluded_fails o s : covered o = true -> g_pre o = false ->
+    exists e, wrap_run dg o s = (s, Err e).
+  Proof.
+    intros C P. destruct o; try discriminate P; cbn [g_pre] in P.
+    - apply orb_false_iff in P as [_ P]. unfold resolves in P.
+      destruct (resolve (comps p)) eqn:E; [discriminate|].
+      cbn [wrap_run]. rewrite (map1_none dg d DS _ _ _ E). eauto.
+    - apply orb_false_iff in P as [_ P]. unfold resolves in P.
+      destruct (resolve (comps p)) eqn:E; [discriminate|].
+      cbn [wrap_run]. rewrite (map1_none dg d DS _ _ _ E). eauto.
+    - destruct overwrite; [discriminate|].
+      destruct (resolve (comps s0)) as [ca|] eqn:E1; [|discriminate].
+      apply negb_false_iff in P.
+      cbn [wrap_run]. rewrite w_copy_unfold, (dg_some dg d DS _ _ E1).
+      destruct (resolve (comps d0)) as [cb|] eqn:E2.
+      + rewrite (dg_some dg d DS _ _ E2).
+        pose proof (rpath_deleg d Gd Nd _ _ E1) as Q1. rewrite P in Q1.
+        destruct (wc_body_fails _ (to_path true (d ++ cb)) _ pt s Q1) as (e & K).
+        unfold vmap, mbind. rewrite K. eauto.
+      + rewrite (dg_none dg d DS _ E2). eauto.
+  Qed.
+
+  Theorem gen_wf_preserved : forall sub o s,
+    wf s -> nn s -> lookup s d = Some sub -> is_dir sub = true -> covered o = true ->
+    wf (fst (wrap_run dg o s)) /\ nn (fst (wrap_run dg o s))
+    /\ exists sub', lookup (fst (wrap_run dg o s)) d = Some sub' /\ is_dir sub' = true.
+  Proof.
+    intros sub o s W N Hl Hs C.
+    destruct (g_pre o) eqn:P.
+    2:{ destruct (excluded_fails o s C P) as (e & K). rewrite K. cbn [fst]. eauto. }
+    destruct (wrap_gen dg d DS Gd Nd s sub W N Hl Hs o C P) as (A & W1 & N1).
+    split; [exact W1|]. split; [exact N1|].
+    assert (Wsub : wf sub) by (split; [exact Hs|destruct W as [_ Wn]; eapply wf_lookup; eauto]).
+    assert (Nsub : nn sub) by (destruct (nn_lookup d s sub N Hl); assumption).
+    assert (C' : covered (nop o) = true) by now rewrite covered_nop.
+    destruct (ref_nn (nop o) sub Nsub C') as (tr & T & _).
+    unfold sub_agree in A. rewrite T in A. apply andb_true_iff in A as [_ A].
+    assert (Dt : is_dir tr = true).
+    { pose proof (mem_refines_ref (nop o) sub Wsub C') as B. unfold agree in B. rewrite T in B.
+      apply andb_true_iff in B as [_ B]. rewrite <- (tree_eqb_is_dir _ _ B).
+      exact (proj1 (mem_wf_preserved (nop o) sub Wsub C')). }
+    destruct W as [_ Wn]. destruct W1 as [_ Wn1].
+    exact (tree_eqb_sub_survives _ s d sub tr Wn1 Wn Hl Dt A).
+  Qed.
+End GenTheorems.
+
+(* nested SubFS: the composed delegate_path prepends the concatenated directory *)
+Lemma nested_dq (subs : list (list str)) : subs <> [] -> Forall (Forall good) subs ->
+  forall p, nested_delegate (map (to_path true) subs) p = dq (concat (rev subs)) p.
+Proof.
+  intros Hn Hs p. destruct subs as [|s1 rest]; [congruence|].
+  inversion Hs as [|? ? Hs1 Hs2]; subst.
+  cbn [map nested_delegate]. rewrite subfs_delegate_spec by exact Hs1. unfold dq.
+  destruct (resolve (comps p)) as [cs|] eqn:E; [|reflexivity].
+  pose proof (resolve_comps_good _ _ E) as G.
+  rewrite nested_delegate_nf by first [exact Hs2|apply Forall_good_app; assumption].
+  cbn [rev]. rewrite concat_app. cbn [concat]. rewrite app_nil_r, <- app_assoc. reflexivity.
+Qed.
+
+Lemma Forall_concat_rev {A} (P : A -> Prop) (ls : list (list A)) :
+  Forall (Forall P) ls -> Forall P (concat (rev ls)).
+Proof. intro H. apply Forall_concat. now apply Forall_rev. Qed.
+
+(* ================================================================== *)
+(* the theorems                                                        *)
+(* ================================================================== *)
+
+(* Three corner cases make statement 1 false as first written (the same holds for 4):
+   (a) a path whose NUL characters disappear in normalisation ("x\0/.."): SubFS normalises
+       before MemoryFS.validatepath sees the path, the call is carried out on the
+       normalised path instead of failing with InvalidCharsInPath;
+   (b) openbin with an invalid mode string AND a path climbing above the root: SubFS raises
+       IllegalBackReference (delegate_path comes first), the contract says ValueError;
+   (c) copy(overwrite=False) from a source containing NUL onto an existing destination:
+       WrapFS.copy looks at the destination first and raises DestinationExists, which is not
+       admissible for a call with an invalid path argument. *)
+Definition ce_a : str := [97%N].
+Definition ce_b : str := [98%N].
+Definition ce_s : node := Dir [(ce_a, Dir [(ce_b, File [1%N] None)] None)] None.
+Definition ce_sub : node := Dir [(ce_b, File [1%N] None)] None.
+Definition ce_hidden : str := [120; 0; 47; 46; 46]%N.      (* "x\0/.." *)
+Definition ce_up : str := [46; 46]%N.                       (* ".." *)
+Definition ce_nul : str := [120; 0]%N.                      (* "x\0" *)
+
+Example ce_hyps : wf ce_s /\ nn ce_s /\ Forall good [ce_a]
+  /\ Forall (fun c => has_char Mem.nul c = false) [ce_a]
+  /\ lookup ce_s [ce_a] = Some ce_sub /\ is_dir ce_sub = true.
+Proof.
+  assert (Ga : good ce_a) by (repeat split; discriminate).
+  assert (Gb : good ce_b) by (repeat split; discriminate).
+  assert (ND : forall x : str, NoDup [x]) by (intro x; constructor; [intros []|constructor]).
+  split; [|split; [|split; [|split; [|split]]]]; try reflexivity.
+  - split; [reflexivity|]. simpl. repeat split; auto.
+  - simpl. repeat split; auto; repeat constructor.
+  - auto.
+  - repeat constructor.
+Qed.
+
+Eval vm_compute in
+  (subfs_run (to_path true [ce_a]) (OExists ce_hidden) ce_s, rs_res (ref_run (OExists ce_hidden) ce_sub)).
+Example ce_subfs_hidden_nul :
+  sub_agree [ce_a] (subfs_run (to_path true [ce_a]) (OExists ce_hidden) ce_s)
+            (ref_run (OExists ce_hidden) ce_sub) ce_s = false.
+Proof. vm_compute. reflexivity. Qed.
+
+Eval vm_compute in
+  (snd (subfs_run (to_path true [ce_a]) (OOpenwrite ce_up [] []) ce_s),
+   rs_res (ref_run (OOpenwrite ce_up [] []) ce_sub)).
+Example ce_subfs_mode_backref :
+  sub_agree [ce_a] (subfs_run (to_path true [ce_a]) (OOpenwrite ce_up [] []) ce_s)
+            (ref_run (OOpenwrite ce_up [] []) ce_sub) ce_s = false.
+Proof. vm_compute. reflexivity. Qed.
+
+Eval vm_compute in
+  (snd (subfs_run (to_path true [ce_a]) (OCopy ce_nul ce_b false false) ce_s),
+   rs_res (ref_run (OCopy ce_nul ce_b false false) ce_sub)).
+Example ce_subfs_copy_dest_first :
+  sub_agree [ce_a] (subfs_run (to_path true [ce_a]) (OCopy ce_nul ce_b false false) ce_s)
+            (ref_run (OCopy ce_nul ce_b false false) ce_sub) ce_s = false.
+Proof. vm_compute. reflexivity. Qed.
+
+(* STATEMENT CHANGED: original statement 1
+     Theorem subfs_refines_ref : forall d sub o s,
+       wf s -> nn s -> Forall good d -> Forall (fun c => has_char Mem.nul c = false) d ->
+       lookup s d = Some sub -> is_dir sub = true -> covered o = true ->
+       sub_agree d (subfs_run (to_path true d) o s) (ref_run o sub) s = true.
+   is false (ce_subfs_hidden_nul, ce_subfs_mode_backref, ce_subfs_copy_dest_first above, with
+   ce_hyps).  True version: the additional hypothesis [sub_pre o = true], a condition on the
+   call alone, excludes the three situations (a), (b), (c) (for (c): every copy with
+   overwrite=False whose source has NUL in its normal form, whether or not the destination
+   exists).  What happens there is stated by subfs_refines_ref_normalised (a: the call is
+   carried out on the normalised paths) and subfs_excluded_call_fails (b, c: the call
+   fails, the storage is unchanged) below.  Statement 3 holds without any such hypothesis. *)
 Theorem subfs_refines_ref : forall d sub o s,
   wf s -> nn s -> Forall good d -> Forall (fun c => has_char Mem.nul c = false) d ->
   lookup s d = Some sub -> is_dir sub = true -> covered o = true ->
+  sub_pre o = true ->
   sub_agree d (subfs_run (to_path true d) o s) (ref_run o sub) s = true.
+Proof.
+  intros d sub o s W N Gd Nd Hl Hs C P. unfold subfs_run.
+  exact (gen_refines_ref _ d (fun p => subfs_delegate_spec d p Gd) Gd Nd sub o s W N Hl Hs C P).
+Qed.
 
-(* 2. the same for the walker-based calls in their non-degenerate cases *)
+(* (a) in general: SubFS behaves like the reference called with the NORMALISED paths *)
+Theorem subfs_refines_ref_normalised : forall d sub o s,
+  wf s -> nn s -> Forall good d -> Forall (fun c => has_char Mem.nul c = false) d ->
+  lookup s d = Some sub -> is_dir sub = true -> covered o = true ->
+  g_pre o = true ->
+  sub_agree d (subfs_run (to_path true d) o s) (ref_run (nop o) sub) s = true.
+Proof.
+  intros d sub o s W N Gd Nd Hl Hs C P. unfold subfs_run.
+  exact (proj1 (wrap_gen _ d (fun p => subfs_delegate_spec d p Gd) Gd Nd s sub W N Hl Hs o C P)).
+Qed.
+
+(* (b), (c): the call fails and the storage is unchanged *)
+Theorem subfs_excluded_call_fails : forall d o s,
+  Forall good d -> Forall (fun c => has_char Mem.nul c = false) d ->
+  covered o = true -> g_pre o = false ->
+  exists e, subfs_run (to_path true d) o s = (s, Err e).
+Proof.
+  intros d o s Gd Nd C P. unfold subfs_run.
+  exact (excluded_fails _ d (fun p => subfs_delegate_spec d p Gd) Gd Nd o s C P).
+Qed.
+
+(* 3. invariants are kept, and the sub-directory itself survives every call (as stated) *)
+Theorem subfs_wf_preserved : forall d sub o s,
+  wf s -> nn s -> Forall good d -> Forall (fun c => has_char Mem.nul c = false) d ->
+  lookup s d = Some sub -> is_dir sub = true -> covered o = true ->
+  wf (fst (subfs_run (to_path true d) o s)) /\ nn (fst (subfs_run (to_path true d) o s))
+  /\ exists sub', lookup (fst (subfs_run (to_path true d) o s)) d = Some sub' /\ is_dir sub' = true.
+Proof.
+  intros d sub o s W N Gd Nd Hl Hs C. unfold subfs_run.
+  exact (gen_wf_preserved _ d (fun p => subfs_delegate_spec d p Gd) Gd Nd sub o s W N Hl Hs C).
+Qed.
+
+(* STATEMENT CHANGED: original statement 4
+     Theorem nested_subfs_refines_ref : forall (subs : list (list str)) sub o s,
+       subs <> [] -> wf s -> nn s -> Forall (Forall good) subs ->
+       Forall (Forall (fun c => has_char Mem.nul c = false)) subs ->
+       lookup s (concat (rev subs)) = Some sub -> is_dir sub = true -> covered o = true ->
+       sub_agree (concat (rev subs)) (nested_subfs_run (map (to_path true) subs) o s) (ref_run o sub) s = true.
+   is false for the same reasons as statement 1 (subs = [[ce_a]] gives back the three
+   counterexamples: ce_nested below).  True version: hypothesis [sub_pre o = true] added. *)
+Example ce_nested :
+  sub_agree (concat (rev [[ce_a]])) (nested_subfs_run (map (to_path true) [[ce_a]]) (OExists ce_hidden) ce_s)
+            (ref_run (OExists ce_hidden) ce_sub) ce_s = false.
+Proof. vm_compute. reflexivity. Qed.
+
+Theorem nested_subfs_refines_ref : forall (subs : list (list str)) sub o s,
+  subs <> [] -> wf s -> nn s -> Forall (Forall good) subs ->
+  Forall (Forall (fun c => has_char Mem.nul c = false)) subs ->
+  lookup s (concat (rev subs)) = Some sub -> is_dir sub = true -> covered o = true ->
+  sub_pre o = true ->
+  sub_agree (concat (rev subs)) (nested_subfs_run (map (to_path true) subs) o s) (ref_run o sub) s = true.
+Proof.
+  intros subs sub o s Hn W N Gs Ns Hl Hs C P. unfold nested_subfs_run.
+  exact (gen_refines_ref _ _ (nested_dq subs Hn Gs) (Forall_concat_rev _ _ Gs)
+           (Forall_concat_rev _ _ Ns) sub o s W N Hl Hs C P).
+Qed.
+
+Theorem nested_subfs_refines_ref_normalised : forall (subs : list (list str)) sub o s,
+  subs <> [] -> wf s -> nn s -> Forall (Forall good) subs ->
+  Forall (Forall (fun c => has_char Mem.nul c = false)) subs ->
+  lookup s (concat (rev subs)) = Some sub -> is_dir sub = true -> covered o = true ->
+  g_pre o = true ->
+  sub_agree (concat (rev subs)) (nested_subfs_run (map (to_path true) subs) o s)
+            (ref_run (nop o) sub) s = true.
+Proof.
+  intros subs sub o s Hn W N Gs Ns Hl Hs C P. unfold nested_subfs_run.
+  exact (proj1 (wrap_gen _ _ (nested_dq subs Hn Gs) (Forall_concat_rev _ _ Gs)
+                  (Forall_concat_rev _ _ Ns) s sub W N Hl Hs o C P)).
+Qed.
+
+(* statement 3 at any nesting depth *)
+Theorem nested_subfs_wf_preserved : forall (subs : list (list str)) sub o s,
+  subs <> [] -> wf s -> nn s -> Forall (Forall good) subs ->
+  Forall (Forall (fun c => has_char Mem.nul c = false)) subs ->
+  lookup s (concat (rev subs)) = Some sub -> is_dir sub = true -> covered o = true ->
+  wf (fst (nested_subfs_run (map (to_path true) subs) o s))
+  /\ nn (fst (nested_subfs_run (map (to_path true) subs) o s))
+  /\ exists sub', lookup (fst (nested_subfs_run (map (to_path true) subs) o s)) (concat (rev subs)) = Some sub'
+                  /\ is_dir sub' = true.
+Proof.
+  intros subs sub o s Hn W N Gs Ns Hl Hs C. unfold nested_subfs_run.
+  exact (gen_wf_preserved _ _ (nested_dq subs Hn Gs) (Forall_concat_rev _ _ Gs)
+           (Forall_concat_rev _ _ Ns) sub o s W N Hl Hs C).
+Qed.
+
+(* ================================================================== *)
+(* 5. plain WrapFS (identity delegate_path)                            *)
+(* ================================================================== *)
+(* the two situations where WrapFS(MemoryFS) leaves the contract:
+   removedir of a spelling of the root that contains NUL ("x\0/.."): WrapFS.removedir
+   normalises the path itself and raises RemoveRootError before MemoryFS can reject the path;
+   copy(overwrite=False) with an invalid source path: the destination is looked at first *)
+Definition wrap_pre (o : op) : bool :=
+  match o with
+  | ORemovedir p =>
+    negb (has_char Mem.nul p && match resolve (comps p) with Some [] => true | _ => false end)
+  | OCopy a _ false _ => match rpath a with inl _ => true | inr _ => false end
+  | _ => true
+  end.
+
+Lemma wrapfs_plain o s :
+  match o with
+  | OGetinfo _ | ORemovedir _ | ORemovetree _ | OCopy _ _ _ _ | OCopydir _ _ _ _ => True
+  | _ => wrapfs_run o s = mem_run o s
+  end.
+Proof. destruct o; try exact I; reflexivity. Qed.
+
+Lemma wrapfs_getinfo p s : wrapfs_run (OGetinfo p) s = mem_run (OGetinfo p) s.
+Proof.
+  unfold wrapfs_run. cbn [wrap_run mem_run]. unfold w_getinfo, dpath. mstep.
+  destruct (rpath p) as [cs|adm] eqn:R.
+  - rewrite (mem_getinfo_spec _ _ s R). destruct (lookup s cs); [|reflexivity].
+    destruct (rpath_inl _ _ R) as [_ E]. rewrite (is_root_some _ _ s E). destruct cs; reflexivity.
+  - rewrite (mem_getinfo_bad _ _ s R). reflexivity.
+Qed.
+
+Lemma agree_err s e adm : existsb (ecls_eqb e) adm = true ->
+  agree (s, @Err value e) (fail s adm) = true.
+Proof. intro H. unfold agree, fail, same. cbn. rewrite H. apply tree_eqb_refl. Qed.
+
+Lemma rpath_nonul_some p cs : has_char Mem.nul p = false -> resolve (comps p) = Some cs ->
+  rpath p = inl cs.
+Proof. intros H E. unfold rpath. change Ref.nul with Mem.nul. now rewrite H, E. Qed.
+
+Lemma wrapfs_removedir p s : wf s -> wrap_pre (ORemovedir p) = true ->
+  agree (wrapfs_run (ORemovedir p) s) (ref_run (ORemovedir p) s) = true.
+Proof.
+  intros W P. destruct (resolve (comps p)) as [cs|] eqn:E.
+  2:{ unfold wrapfs_run. cbn [wrap_run ref_run]. unfold w_removedir. mstep.
+      rewrite (is_root_none _ s E). destruct (ibr_in p E) as (_ & adm & R & Hin).
+      unfold with1. rewrite R. now apply agree_err. }
+  destruct cs as [|c cs'].
+  - unfold wrapfs_run. cbn [wrap_run ref_run]. unfold w_removedir. mstep.
+    rewrite (is_root_some _ _ s E). cbn [wrap_pre] in P. rewrite E, andb_true_r in P.
+    apply negb_true_iff in P. unfold with1. rewrite (rpath_nonul_some _ _ P E).
+    unfold ref_removedir. now apply agree_err.
+  - assert (X : wrapfs_run (ORemovedir p) s = mem_run (ORemovedir p) s).
+    { unfold wrapfs_run. cbn [wrap_run mem_run]. unfold w_removedir, dpath. mstep.
+      now rewrite (is_root_some _ _ s E). }
+    rewrite X. now apply mem_refines_ref.
+Qed.
+
+Lemma HQ_root p k : resolve (comps p) = Some [] -> good k -> nonulc k ->
+  exists ip, pjoin [p; k] = Ok ip /\ rpath ip = inl ([] ++ [k]).
+Proof.
+  intros E Gk Nk. destruct (pjoin_root_spelling p k E Gk) as (b & Hb).
+  exists (to_path b [k]). split; [exact Hb|]. now apply rpath_single.
+Qed.
+
+Lemma wrapfs_removetree p s : wf s -> nn s ->
+  agree (wrapfs_run (ORemovetree p) s) (ref_run (ORemovetree p) s) = true.
+Proof.
+  intros W N. destruct (resolve (comps p)) as [cs|] eqn:E.
+  2:{ unfold wrapfs_run. cbn [wrap_run ref_run]. unfold w_removetree. mstep.
+      rewrite normpath_spec. unfold spec_normpath. rewrite E.
+      destruct (ibr_in p E) as (_ & adm & R & Hin).
+      unfold with1. rewrite R. now apply agree_err. }
+  pose proof (resolve_comps_good _ _ E) as G.
+  destruct cs as [|c cs'].
+  - assert (X : wrapfs_run (ORemovetree p) s =
+                vmap (fun _ : unit => VUnit)
+                     (mbind (mem_scandir p) (fun infos => mfor infos (rt_body p))) s).
+    { unfold wrapfs_run. cbn [wrap_run]. unfold w_removetree, dpath, rt_body. mstep.
+      rewrite normpath_spec. unfold spec_normpath. rewrite E.
+      rewrite abspath_nf_gen by constructor.
+      change (str_eqb (to_path true []) s_slash) with true. reflexivity. }
+    rewrite X. cbn [ref_run]. unfold with1. mstep.
+    destruct (rpath p) as [cs|adm] eqn:R.
+    + destruct (rpath_inl _ _ R) as [_ E']. rewrite E in E'. inversion E'; subst cs.
+      rewrite (mem_scandir_spec _ _ s R). cbn [lookup].
+      destruct (wf_root_dir s W) as (ents & m & ->).
+      destruct (rt_loop [] p (fun k => HQ_root p k E) ents (Dir ents m) m W N eq_refl) as (EL & _ & _).
+      rewrite EL. cbn [put]. unfold ref_removetree, agree.
+      cbn [fst snd rs_res rs_tree res_agree value_eqb andb]. apply tree_eqb_refl.
+    + rewrite (mem_scandir_bad _ _ s R). apply agree_err. exact (bad_err_in _ _ R).
+  - assert (X : wrapfs_run (ORemovetree p) s = mem_run (ORemovetree p) s).
+    { unfold wrapfs_run. cbn [wrap_run mem_run]. unfold w_removetree, dpath. mstep.
+      rewrite normpath_spec. unfold spec_normpath. rewrite E.
+      rewrite abspath_nf_gen by exact G. rewrite <- to_path_root.
+      rewrite (RefineLemmas.to_path_eqb (c :: cs') []) by (auto; constructor).
+      reflexivity. }
+    rewrite X. now apply mem_refines_ref.
+Qed.
+
+Lemma wrapfs_copy a b o pt s : wf s -> wrap_pre (OCopy a b o pt) = true ->
+  agree (wrapfs_run (OCopy a b o pt) s) (ref_run (OCopy a b o pt) s) = true.
+Proof.
+  intros W P. unfold wrapfs_run. cbn [wrap_run]. rewrite w_copy_unfold. cbn [ref_run].
+  destruct (rpath a) as [ca|e1] eqn:R1.
+  - destruct (rpath b) as [cb|e2] eqn:R2.
+    + assert (X : vmap (fun _ : unit => VUnit) (wc_body a b o pt) s = mem_run (OCopy a b o pt) s).
+      { cbn [mem_run]. unfold vmap, mbind. now rewrite (wc_body_inl _ _ _ _ o pt s R1 R2). }
+      rewrite X. pose proof (mem_refines_ref (OCopy a b o pt) s W eq_refl) as A.
+      cbn [ref_run] in A. exact A.
+    + unfold vmap, mbind. rewrite (wc_body_bad_r _ _ _ _ o pt s R1 R2).
+      destruct (with2_bad_r s a b (fun x y => ref_copy s x y o pt) _ _ R2 (bad_err_in _ _ R2))
+        as (adm' & -> & Hin').
+      now apply agree_err.
+  - cbn [wrap_pre] in P. rewrite R1 in P. destruct o; [|discriminate P].
+    unfold vmap, mbind. rewrite (wc_body_bad_l _ _ _ pt s R1).
+    destruct (with2_bad_l s a b (fun x y => ref_copy s x y true pt) _ _ R1 (bad_err_in _ _ R1))
+      as (adm' & -> & Hin').
+    now apply agree_err.
+Qed.
+
+Definition ce_upx : str := [46; 46; 47; 120]%N.             (* "../x" *)
+Eval vm_compute in
+  (snd (wrapfs_run (ORemovedir ce_hidden) ce_s), rs_res (ref_run (ORemovedir ce_hidden) ce_s)).
+Example ce_wrapfs_removedir :
+  agree (wrapfs_run (ORemovedir ce_hidden) ce_s) (ref_run (ORemovedir ce_hidden) ce_s) = false.
+Proof. vm_compute. reflexivity. Qed.
+Eval vm_compute in
+  (snd (wrapfs_run (OCopy ce_upx ce_a false false) ce_s),
+   rs_res (ref_run (OCopy ce_upx ce_a false false) ce_s)).
+Example ce_wrapfs_copy :
+  agree (wrapfs_run (OCopy ce_upx ce_a false false) ce_s)
+        (ref_run (OCopy ce_upx ce_a false false) ce_s) = false.
+Proof. vm_compute. reflexivity. Qed.
+
+(* STATEMENT CHANGED: original statement 5
+     Theorem wrapfs_refines_ref : forall o s, wf s -> nn s -> covered o = true ->
+       agree (wrapfs_run o s) (ref_run o s) = true.
+   is false: ce_wrapfs_removedir (RemoveRootError for removedir("x\0/..") where the contract
+   says InvalidCharsInPath) and ce_wrapfs_copy (DestinationExists for
+   copy("../x", existing, overwrite=False) where the contract says IllegalBackReference), on
+   the well-formed ce_s (ce_hyps).  True version: hypothesis [wrap_pre o = true], a condition
+   on the call alone that excludes these two situations (removedir of a NUL-containing
+   spelling of the root; copy with overwrite=False and an invalid source path); there the
+   call fails and changes nothing (wrapfs_excluded_call_fails). *)
+Theorem wrapfs_refines_ref : forall o s, wf s -> nn s -> covered o = true ->
+  wrap_pre o = true ->
+  agree (wrapfs_run o s) (ref_run o s) = true.
+Proof.
+  intros o s W N C P. pose proof (wrapfs_plain o s) as H.
+  destruct o; try discriminate C; try (rewrite H; now apply mem_refines_ref).
+  - rewrite wrapfs_getinfo. now apply mem_refines_ref.
+  - now apply wrapfs_removedir.
+  - now apply wrapfs_removetree.
+  - now apply wrapfs_copy.
+Qed.
+
+Theorem wrapfs_excluded_call_fails : forall o s, covered o = true -> wrap_pre o = false ->
+  exists e, wrapfs_run o s = (s, Err e).
+Proof.
+  intros o s C P. destruct o; try discriminate P; cbn [wrap_pre] in P.
+  - apply negb_false_iff in P. apply andb_true_iff in P as [_ P].
+    destruct (resolve (comps p)) as [[|c cs]|] eqn:E; try discriminate P.
+    unfold wrapfs_run. cbn [wrap_run]. unfold w_removedir. mstep.
+    rewrite (is_root_some _ _ s E). eauto.
+  - destruct overwrite; [discriminate|].
+    destruct (rpath s0) as [ca|e1] eqn:R1; [discriminate|].
+    unfold wrapfs_run. cbn [wrap_run]. rewrite w_copy_unfold.
+    destruct (wc_body_fails s0 d _ pt s R1) as (e & K).
+    unfold vmap, mbind. rewrite K. eauto.
+Qed.
+
+(* ================================================================== *)
+(* 2. the walker-based calls, non-degenerate cases                     *)
+(* ================================================================== *)
+Definition wcd_body (qs qd : str) (create pt : bool) : MM unit :=
+  mbind (if create then ret true else mem_exists qd) (fun e =>
+    if negb e then raise ResourceNotFound
+    else mbind (mem_getinfo qs) (fun i =>
+      if negb (i_isdir i) then raise DirectoryExpected
+      else copy_dir mem_low mem_copy qs qd pt)).
+
+Lemma w_copydir_unfold dg a b c pt s :
+  vmap (fun _ : unit => VUnit) (w_copydir dg a b c pt) s =
+  match dg a with
+  | Ok qs => match dg b with
+             | Ok qd => vmap (fun _ : unit => VUnit) (wcd_body qs qd c pt) s
+             | Err e => (s, Err e)
+             | Crash k => (s, Crash k)
+             end
+  | Err e => (s, Err e)
+  | Crash k => (s, Crash k)
+  end.
+Proof.
+  unfold w_copydir, wcd_body, dpath. mstep. destruct (dg a); [|reflexivity|reflexivity].
+  destruct (dg b); reflexivity.
+Qed.
+
+Lemma wcd_unfold a b create pt s : vp a -> vp b ->
+  wcd_body (to_path true a) (to_path true b) create pt s =
+  if negb (if create then true else match lookup s b with Some _ => true | None => false end)
+  then (s, Err ResourceNotFound)
+  else match lookup s a with
+       | None => (s, Err ResourceNotFound)
+       | Some n => if is_dir n
+                   then copy_dir mem_low mem_copy (to_path true a) (to_path true b) pt s
+                   else (s, Err DirectoryExpected)
+       end.
+Proof.
+  intros Va Vb. unfold wcd_body, mem_exists.
+  destruct create; mstep; cbn [negb]; mstep.
+  - rewrite (mem_getinfo_spec _ _ s (rpath_nf _ Va)).
+    destruct (lookup s a) as [n|]; [|reflexivity]. mstep. cbn [to_info i_isdir].
+    destruct (is_dir n); reflexivity.
+  - rewrite (mem_exists_spec _ _ s (rpath_nf _ Vb)). mstep.
+    destruct (lookup s b) as [nb|]; cbn [negb]; mstep; [|reflexivity].
+    rewrite (mem_getinfo_spec _ _ s (rpath_nf _ Va)).
+    destruct (lookup s a) as [n|]; [|reflexivity]. mstep. cbn [to_info i_isdir].
+    destruct (is_dir n); reflexivity.
+Qed.
+
+Lemma copy_dir_illegal a b pt s : vp a -> vp b -> list_prefix a b = true ->
+  copy_dir mem_low mem_copy (to_path true a) (to_path true b) pt s = (s, Err IllegalDestination).
+Proof.
+  intros Va Vb H. pose proof Va as [Ga _]. pose proof Vb as [Gb _].
+  rewrite copy_dir_unfold. mstep. rewrite !normpath_nf by assumption.
+  rewrite copy_structure_unfold. mstep.
+  rewrite (validate_inl _ _ s (rpath_nf _ Va)). mstep.
+  rewrite (validate_inl _ _ s (rpath_nf _ Vb)). mstep.
+  rewrite (isbase_nf true a true b Ga Gb), <- list_prefix_cprefix, H. reflexivity.
+Qed.
+
+Lemma sub_agree_lift d s obs o' o sub :
+  agree obs (ref_run o' s) = true -> ref_run o' s = lift_step d s (ref_run o sub) ->
+  sub_agree d obs (ref_run o sub) s = true.
+Proof. intros A E. rewrite E, agree_lift in A. exact A. Qed.
+
+Section Walk.
+  Variables (d : list str) (s sub : node).
+  Hypothesis W : wf s.
+  Hypothesis N : nn s.
+  Hypothesis Gd : Forall good d.
+  Hypothesis Nd : Forall (fun c => has_char Mem.nul c = false) d.
+  Hypothesis Hl : lookup s d = Some sub.
+  Hypothesis Hsub : is_dir sub = true.
+
+  Let DS := fun p => subfs_delegate_spec d p Gd.
+
+  Lemma vp_pre cs : vp cs -> vp (d ++ cs).
+  Proof. intro V. apply vp_app. split; [split; assumption|exact V]. Qed.
+
+  Lemma plift_inl p cs : rpath p = inl cs -> plift d p (to_path true (d ++ cs)).
+  Proof. intro R. unfold plift. rewrite R. apply rpath_nf. apply vp_pre. eapply rpath_vp; eauto. Qed.
+
+  Lemma walk_makedirs p r cs : rpath p = inl cs ->
+    sub_agree d (subfs_run (to_path true d) (OMakedirs p r) s) (ref_run (OMakedirs p r) sub) s = true.
+  Proof.
+    intro R. destruct (rpath_inl _ _ R) as [_ E]. pose proof (rpath_vp _ _ R) as V.
+    unfold subfs_run. cbn [wrap_run]. rewrite (map1_some _ d DS _ _ _ _ E).
+    eapply sub_agree_lift.
+    - eapply mem_makedirs_refines_ref; [exact W|]. apply rpath_nf. now apply vp_pre.
+    - apply ref_frame_walk; auto. cbn [op_lift]. split; [now apply plift_inl|reflexivity].
+  Qed.
+
+  Lemma walk_movedir a b c pt ca cb : rpath a = inl ca -> rpath b = inl cb ->
+    list_prefix cb ca = false ->
+    sub_agree d (subfs_run (to_path true d) (OMovedir a b c pt) s) (ref_run (OMovedir a b c pt) sub) s = true.
+  Proof.
+    intros R1 R2 Hba. destruct (rpath_inl _ _ R1) as [_ E1]. destruct (rpath_inl _ _ R2) as [_ E2].
+    pose proof (rpath_vp _ _ R1) as V1. pose proof (rpath_vp _ _ R2) as V2.
+    unfold subfs_run. cbn [wrap_run]. rewrite (map2_some _ d DS _ _ _ _ _ _ E1 E2).
+    eapply sub_agree_lift.
+    - eapply (mem_movedir_refines_ref_nondegenerate _ _ c pt s (d ++ ca) (d ++ cb)); auto.
+      + apply rpath_nf. now apply vp_pre.
+      + apply rpath_nf. now apply vp_pre.
+      + now rewrite list_prefix_app.
+    - apply ref_frame_walk; auto. cbn [op_lift]. repeat split; now apply plift_inl.
+  Qed.
+
+  Lemma walk_copydir a b c pt ca cb : rpath a = inl ca -> rpath b = inl cb ->
+    list_prefix cb ca = false ->
+    sub_agree d (subfs_run (to_path true d) (OCopydir a b c pt) s) (ref_run (OCopydir a b c pt) sub) s = true.
+  Proof.
+    intros R1 R2 Hba. destruct (rpath_inl _ _ R1) as [_ E1]. destruct (rpath_inl _ _ R2) as [_ E2].
+    pose proof (rpath_vp _ _ R1) as V1. pose proof (rpath_vp _ _ R2) as V2.
+    pose proof (vp_pre _ V1) as VA. pose proof (vp_pre _ V2) as VB.
+    unfold subfs_run. cbn [wrap_run]. rewrite w_copydir_unfold.
+    rewrite (dg_some _ d DS _ _ E1), (dg_some _ d DS _ _ E2).
+    destruct (list_prefix ca cb) eqn:Hab.
+    - (* destination inside the source: some failure, all of them admissible *)
+      unfold vmap, mbind. rewrite (wcd_unfold _ _ c pt s VA VB).
+      rewrite !(lookup_pre d s sub _ Hl).
+      cbn [ref_run]. unfold with2. rewrite R1, R2. unfold ref_dirtransfer. cbn [andb].
+      assert (K : forall e, existsb (ecls_eqb e) (dirtransfer_errors sub ca cb c false) = true ->
+                  sub_agree d (s, @Err value e)
+                    match dirtransfer_errors sub ca cb c false with
+                    | [] => if list_prefix cb ca then {| rs_tree := None; rs_res := RAny |}
+                            else match lookup sub ca, lookup sub cb with
+                                 | Some src, None =>
+                                   let t1 := put (mkdirs sub [] cb) cb (fresh pt src) in
+                                   {| rs_tree := Some t1; rs_res := ROk VUnit |}
+                                 | Some src, Some dst =>
+                                   match merge_node (S (tree_size src)) pt dst (fresh pt src) with
+                                   | Some m => let t1 := put sub cb m in
+                                               {| rs_tree := Some t1; rs_res := ROk VUnit |}
+                                   | None => {| rs_tree := None;
+                                                rs_res := RFail [DirectoryExpected; FileExpected;
+                                                                 DirectoryExists; ResourceNotFound] |}
+                                   end
+                                 | _, _ => fail sub [ResourceNotFound]
+                                 end
+                    | (_ :: _) as e0 => fail sub e0
+                    end s = true).
+      { intros e He. destruct (dirtransfer_errors sub ca cb c false) as [|x l]; [discriminate|].
+        unfold sub_agree, fail, same. cbn [fst snd rs_res rs_tree res_agree]. rewrite He.
+        rewrite (put_id _ _ _ Hl). apply tree_eqb_refl. }
+      destruct (negb (if c then true else match lookup sub cb with Some _ => true | None => false end)) eqn:Hex.
+      { destruct c; [discriminate|]. destruct (lookup sub cb) eqn:Lb; [discriminate|].
+        apply K. rewrite dte_eq, Hab.
+        destruct (status_lookup_none _ _ Lb) as [E|E]; rewrite E;
+          destruct (status_of sub ca); destruct (prefix_is_file sub [] cb); reflexivity. }
+      destruct (lookup sub ca) as [S0|] eqn:La.
+      2:{ apply K. rewrite dte_eq, Hab.
+          destruct (status_lookup_none _ _ La) as [E|E]; rewrite E; reflexivity. }
+      destruct S0 as [d0 m0|es ms]; cbn [is_dir].
+      { apply K. rewrite dte_eq, Hab, (status_file _ _ _ _ La). reflexivity. }
+      rewrite (copy_dir_illegal _ _ pt s VA VB) by now rewrite list_prefix_app.
+      apply K. rewrite dte_eq, Hab. reflexivity.
+    - assert (X : vmap (fun _ : unit => VUnit)
+                    (wcd_body (to_path true (d ++ ca)) (to_path true (d ++ cb)) c pt) s
+                  = mem_run (OCopydir (to_path true (d ++ ca)) (to_path true (d ++ cb)) c pt) s).
+      { cbn [mem_run]. unfold vmap, mbind.
+        rewrite (copydir_unfold _ _ c pt s _ _ (rpath_nf _ VA) (rpath_nf _ VB)).
+        rewrite list_prefix_app, Hab. now rewrite (wcd_unfold _ _ c pt s VA VB). }
+      rewrite X. eapply sub_agree_lift.
+      + eapply (mem_copydir_refines_ref _ _ c pt s (d ++ ca) (d ++ cb)); auto.
+        * now apply rpath_nf.
+        * now apply rpath_nf.
+        * now rewrite list_prefix_app.
+      + apply ref_frame_walk; auto. cbn [op_lift]. repeat split; now apply plift_inl.
+  Qed.
+End Walk.
+
+(* 2. as stated *)
 Theorem subfs_refines_ref_walk : forall d sub o s,
   wf s -> nn s -> Forall good d -> Forall (fun c => has_char Mem.nul c = false) d ->
   lookup s d = Some sub -> is_dir sub = true ->
@@ -34,23 +1210,21 @@ Theorem subfs_refines_ref_walk : forall d sub o s,
    | _ => False
    end) ->
   sub_agree d (subfs_run (to_path true d) o s) (ref_run o sub) s = true.
+Proof.
+  intros d sub o s W N Gd Nd Hl Hs H. destruct o; try contradiction.
+  - destruct H as (cs & R). now apply (walk_makedirs d s sub W Gd Nd Hl Hs p recreate cs).
+  - destruct H as (ca & cb & R1 & R2 & Hba).
+    now apply (walk_movedir d s sub W N Gd Nd Hl Hs s0 d0 create pt ca cb).
+  - destruct H as (ca & cb & R1 & R2 & Hba).
+    now apply (walk_copydir d s sub W N Gd Nd Hl Hs s0 d0 create pt ca cb).
+Qed.
 
-(* 3. invariants are kept, and the sub-directory itself survives every call *)
-Theorem subfs_wf_preserved : forall d sub o s,
-  wf s -> nn s -> Forall good d -> Forall (fun c => has_char Mem.nul c = false) d ->
-  lookup s d = Some sub -> is_dir sub = true -> covered o = true ->
-  wf (fst (subfs_run (to_path true d) o s)) /\ nn (fst (subfs_run (to_path true d) o s))
-  /\ exists sub', lookup (fst (subfs_run (to_path true d) o s)) d = Some sub' /\ is_dir sub' = true.
-
-(* 4. any nesting depth: SubFS of SubFS of ... is the SubFS at the concatenated path
-      (subs innermost first, as in Sandbox.nested_delegate) *)
-Theorem nested_subfs_refines_ref : forall (subs : list (list str)) sub o s,
-  subs <> [] -> wf s -> nn s -> Forall (Forall good) subs ->
-  Forall (Forall (fun c => has_char Mem.nul c = false)) subs ->
-  lookup s (concat (rev subs)) = Some sub -> is_dir sub = true -> covered o = true ->
-  sub_agree (concat (rev subs)) (nested_subfs_run (map (to_path true) subs) o s) (ref_run o sub) s = true.
-
-(* 5. plain WrapFS (identity delegate_path) *)
-Theorem wrapfs_refines_ref : forall o s, wf s -> nn s -> covered o = true ->
-  agree (wrapfs_run o s) (ref_run o s) = true.
-*)
+(* Summary.  Proved as stated: subfs_refines_ref_walk (2), subfs_wf_preserved (3).
+   Proved with an added hypothesis (STATEMENT CHANGED, counterexamples above):
+   subfs_refines_ref (1) and nested_subfs_refines_ref (4) with [sub_pre o = true],
+   wrapfs_refines_ref (5) with [wrap_pre o = true].
+   Complements: subfs_refines_ref_normalised, nested_subfs_refines_ref_normalised (every
+   covered call satisfying g_pre, against the reference on the normalised paths),
+   subfs_excluded_call_fails, wrapfs_excluded_call_fails, nested_subfs_wf_preserved;
+   wrap_gen / gen_refines_ref / gen_wf_preserved: the same for ANY wrapper whose
+   delegate_path is [dq d].  Nothing is left unproved. *)
